@@ -89,6 +89,12 @@ def lexer_layer(run: Run, sess: Optional[rx.Session] = None, progress: bool = Fa
                     "lemmas, which together imply it, reach N = 44)",
                     f"white-space runs longer than {runs} next to an operator (the WS-maximal-run obligation covers runs up to {n_ws})"]
     sess.drive(lexer_obligations(sess, tier), timeout=120 if tier == "quick" else 600, progress=progress)
+    # white-space runs are unbounded in the reference (RWS = 1*(SP / HTAB ...)): a counted repeat {m,n} with n beyond the text
+    # bound in an operator / WS rule is replayed with n + 1 white-space characters (structure + replay, not a solver verdict)
+    ws_refs = {kind: (r"\s+" + op + r"\s+", re.I) for op, kind in ls.BINARY_OPERATORS.items()}
+    ws_refs.update({kind: (op + r"\s+", re.I) for op, kind in ls.PREFIX_OPERATORS.items()})
+    ws_refs["WS"] = (r"\s+", 0)
+    rx.check_repeat_caps(run, sess, n_ws if n_ws in sess.engines else min(sess.engines), list(ws_refs), {}, ws_refs)
     if tier == "thorough" or os.environ.get("VERIF_SELFTEST"):
         rx.selftest(run, sess.spec, MUTANTS, {N_CASE, N_WS}, [], lambda s2: lexer_obligations(s2, "quick"), timeout=120, progress=progress)
     return sess
@@ -140,16 +146,21 @@ def c_exponent(i: int) -> bool:
 
 
 DATETIMES = ("2020-02-29T10:00:00Z", "2020-02-29T10:00Z", "2020-02-29T23:59:59.123456Z", "2020-02-29T10:00:00+05:30",
-             "2020-02-29T10:00:00")
+             "2020-02-29T10:00:00",
+             # 7..12 fractional digits (more than Python's microseconds): with Z, with an offset, without a zone
+             "2020-02-29T23:59:58.1234567Z", "2020-02-29T23:59:58.123456789Z", "2020-02-29T23:59:58.123456789012Z",
+             "2020-02-29T23:59:58.1234567+05:30", "2020-02-29T23:59:58.123456789012-23:59", "2020-02-29T23:59:58.1234567",
+             "2020-02-29T23:59:58.12345678901")
 
 
 def c_datetime(i: int, tcase: int, zcase: int) -> bool:
     s = DATETIMES[i]
     v = s.replace("T", "t") if tcase else s
     v = v.replace("Z", "z") if zcase else v
-    a = _v.action("DATETIME", v).value.py_val
-    b = _v.action("DATETIME", s).value.py_val
-    return a == b and a.utcoffset() == b.utcoffset()
+    na, nb = _v.action("DATETIME", v).value, _v.action("DATETIME", s).value
+    a, b = na.py_val, nb.py_val
+    # equal value, and equal literal text up to the case of the designators (the text is what the SQL backends emit)
+    return a == b and a.utcoffset() == b.utcoffset() and _v.same_str(nb.val.upper(), na.val.upper())
 
 
 GUID_TXT = "abcdefab-cdef-abcd-efab-cdefabcdefab"
@@ -290,6 +301,12 @@ def _templates() -> List[dict]:
     add("lit-null", ["a"] + _op("eq") + [K("null")])
     add("lit-duration", ["a"] + _op("add") + [K("duration"), "'", K("p"), "1", K("d"), K("t"), "2", K("h"), "'"])
     add("lit-datetime", ["a"] + _op("gt") + ["2020-02-29", K("t"), "10:00:00", K("z")])
+    add("lit-datetime-frac7-Z", ["a"] + _op("gt") + ["2020-02-29", K("t"), "23:59:58.1234567", K("z")])
+    add("lit-datetime-frac12-Z", ["a"] + _op("lt") + ["2020-02-29", K("t"), "23:59:58.123456789012", K("z")])
+    add("lit-datetime-frac9-offset", ["a"] + _op("ge") + ["2020-02-29", K("t"), "23:59:58.123456789+05:30"])
+    add("lit-datetime-frac7-nozone", ["a"] + _op("le") + ["2020-02-29", K("t"), "23:59:58.1234567"])
+    add("lit-datetime-frac-in-list", ["a"] + _op("in") + ["(", O(), "2020-02-29", K("t"), "23:59:58.1234567", K("z"), O(), ",", O(),
+                                                          "2020-02-29", K("t"), "10:00:00.12345678", K("z"), O(), ")"])
     add("lit-exponent", ["a"] + _op("lt") + ["1.5", K("e"), "3"])
     add("lit-guid", ["a"] + _op("eq") + [K("abcdefab"), "-", K("cdef"), "-1234-5678-", K("abcdefabcdef")])
     add("lit-geography", ["geo.length(", O(), K("geography"), "'SRID=0;LineString(1 2,3 4)'", O(), ")"] + _op("gt") + ["1"])
@@ -384,8 +401,10 @@ def meaning(node) -> object:
     if isinstance(node, _ast._Literal):
         # the lexeme comes out of the regex engine as a CrossHair string proxy; C-implemented parsers (dateutil, datetime)
         # reject proxies with TypeError, so the literal is rebuilt on the realised text before its value is taken
-        v = type(node)(_realize(node.val)).py_val
-        return (type(node).__name__, type(v).__name__, _value_key(v))
+        text = _realize(node.val)
+        v = type(node)(text).py_val
+        # value and the literal's text up to letter case (the SQL dialects emit the text); strings keep their exact content
+        return (type(node).__name__, type(v).__name__, _value_key(v), text if isinstance(node, _ast.String) else text.lower())
     if isinstance(node, _ast.Identifier):
         return ("Identifier", node.name, ["ns"] + list(node.namespace))
     if isinstance(node, _ast.Attribute):
